@@ -1,5 +1,6 @@
 import Driver.Util
 import Hv.Query.Routes
+import Hv.Query.Bucket
 
 /-! Line-protocol driver of domain C08 (same ops as `/verif/harness/c08.go`): the model's
     accelerated route and full-scan route for every query.
@@ -137,17 +138,51 @@ partial def parseGroup (s : String) : Option Group :=
 
 /-! ### state -/
 
+/-- the swamp: its records and its field buckets as the code keeps them (`Hv/Query/Bucket.lean`) -/
 structure DSt where
   cfg : Cfg
-  store : List Rec
+  st : BSt
+  /-- a first query held inside `GetOrBuildBucket` (op `bq`): the path it is building, the query -/
+  held : Option (Path × Query) := none
 
-def upsert (store : List Rec) (k : String) (body : Option Value) (c u e : Int) : List Rec :=
+def DSt.store (d : DSt) : List Rec := d.st.store
+
+/-- the record a Set leaves behind (absent time fields keep their value) -/
+def merged (store : List Rec) (k : String) (body : Option Value) (c u e : Int) : Rec :=
   match store.find? (·.key == k) with
-  | none => store ++ [{ key := k, body := body, created := c, updated := u, expire := e }]
+  | none => { key := k, body := body, created := c, updated := u, expire := e }
   | some o =>
-    store.map (fun r => if r.key == k then
-      { r with body := body, created := if c != 0 then c else o.created,
-               updated := if u != 0 then u else o.updated, expire := if e != 0 then e else o.expire } else r)
+    { o with body := body, created := if c != 0 then c else o.created,
+             updated := if u != 0 then u else o.updated, expire := if e != 0 then e else o.expire }
+
+def upsert (cfg : Cfg) (st : BSt) (k : String) (body : Option Value) (c u e : Int) : BSt :=
+  stepPut cfg st (merged st.store k body c u e)
+
+/-- the tracking facts that are false, as findings -/
+def trackFlags (cfg : Cfg) : List String :=
+  (if !cfg.bucketNotifyInsert then ["C08-bucket-misses-insert"] else []) ++
+  (if !cfg.bucketNotifyUpdate then ["C08-bucket-misses-update"] else []) ++
+  (if !cfg.bucketNotifyDelete then ["C08-bucket-misses-delete"] else []) ++
+  (if !cfg.bucketPendingReplayed then ["C08-bucket-build-drops-pending"] else []) ++
+  (if !cfg.readerDrainsInFlight then ["C08-bucket-served-before-drain"] else [])
+
+/-- the field paths the accelerated route looks up for this query, in order -/
+def hintPaths (cfg : Cfg) (q : Query) : List Path :=
+  match q.filter with
+  | none => []
+  | some g =>
+    if cfg.pagedQueriesBypass && (q.from_ != 0 || q.limit != 0) then [] else
+    match planFilter cfg g with
+    | .and hs _ => hs.map (·.path)
+    | .orUnion hs => hs.map (·.path)
+    | _ => []
+
+/-- walk the lookups of a query until one has to build its bucket: the state then, and that path -/
+def untilBuild (cfg : Cfg) : BSt → List Path → BSt × Option Path
+  | st, [] => (st, none)
+  | st, p :: rest =>
+    if st.buckets.any (fun b => decide (b.path = p) && b.init) then untilBuild cfg (ensureBuilt cfg st p) rest
+    else (st, some p)
 
 def renderItems (l : List Item) : String :=
   ",".intercalate (l.map (fun it => if it.2.isEmpty then it.1 else it.1 ++ "[" ++ "+".intercalate it.2 ++ "]"))
@@ -220,19 +255,46 @@ def optT : String → Option (Option Int)
   | "-" => some none
   | s => s.toInt?.map some
 
+def parseQ (idx ord fr lim ft tt mx filt : String) : Option Query :=
+  match slotOf idx, fr.toNat?, lim.toNat?, optT ft, optT tt, mx.toNat? with
+  | some sl, some fr, some lim, some ft, some tt, some mx =>
+    let g? : Option (Option Group) := if filt == "-" then some none else (parseGroup filt).map some
+    g?.map (fun g => { slot := sl, asc := ord == "asc", from_ := fr, limit := lim, fromT := ft, toT := tt,
+                       maxResults := mx, filter := g })
+  | _, _, _, _, _, _ => none
+
 def step (d : DSt) (line : String) : DSt × String :=
   match line.splitOn " " with
-  | ["case", _] => ({ d with store := [] }, line)
+  | ["case", _] => ({ d with st := BSt.init, held := none }, line)
+  | ["bq", point, idx, ord, fr, lim, ft, tt, mx, filt] =>
+    -- a first query that is held inside GetOrBuildBucket: after its snapshot (`snap`) or after
+    -- BuildEquality and before DrainPending (`built`); `release` lets it finish
+    match parseQ idx ord fr lim ft tt mx filt with
+    | none => (d, "bad-op")
+    | some q =>
+      if (point != "snap" && point != "built") || d.held.isSome then (d, "bad-op") else
+      if d.store.isEmpty then (d, "done") else
+      match untilBuild d.cfg d.st (hintPaths d.cfg q) with
+      | (_, none) => ({ d with st := afterQuery d.cfg d.st q }, "done")
+      | (st0, some p) =>
+        let steps := [MOp.beginBuild p, .snapshot p] ++ (if point == "built" then [MOp.build p] else [])
+        ({ d with st := steps.foldl (stepB d.cfg) st0, held := some (p, q) }, "held")
+  | ["release"] =>
+    match d.held with
+    | none => (d, "ok")
+    | some (p, q) =>
+      let st1 := [MOp.build p, .drain p].foldl (stepB d.cfg) d.st
+      ({ d with st := afterQuery d.cfg st1 q, held := none }, "ok")
   | ["body", k, c, u, e, _hex, text] =>
     match c.toInt?, u.toInt?, e.toInt?, parseValue text.toList with
-    | some c, some u, some e, some (v, []) => ({ d with store := upsert d.store k (some v) c u e }, "ok")
+    | some c, some u, some e, some (v, []) => ({ d with st := upsert d.cfg d.st k (some v) c u e }, "ok")
     | _, _, _, _ => (d, "bad-op")
   | ["plain", k, c, u, e] =>
     match c.toInt?, u.toInt?, e.toInt? with
-    | some c, some u, some e => ({ d with store := upsert d.store k none c u e }, "ok")
+    | some c, some u, some e => ({ d with st := upsert d.cfg d.st k none c u e }, "ok")
     | _, _, _ => (d, "bad-op")
-  | ["del", k] => ({ d with store := d.store.filter (·.key != k) }, "ok")
-  | ["reload"] => (d, "ok")
+  | ["del", k] => ({ d with st := stepDel d.cfg d.st k }, "ok")
+  | ["reload"] => ({ d with st := stepB d.cfg d.st .reload }, "ok")
   | ["q", idx, ord, fr, lim, ft, tt, mx, filt] =>
     match slotOf idx, fr.toNat?, lim.toNat?, optT ft, optT tt, mx.toNat? with
     | some sl, some fr, some lim, some ft, some tt, some mx =>
@@ -243,14 +305,18 @@ def step (d : DSt) (line : String) : DSt × String :=
         if d.store.isEmpty then (d, "b=err:noswamp s=err:noswamp") else
         let q : Query := { slot := sl, asc := ord == "asc", from_ := fr, limit := lim, fromT := ft, toT := tt,
                            maxResults := mx, filter := g }
-        let b := bucketRoute d.cfg d.store q
+        -- the accelerated route on the buckets as the history left them; the query's own builds stay
+        let b := bucketRouteS d.cfg d.st q
+        let bSpec := bucketRoute d.cfg d.store q
         let s := scanRoute d.cfg d.store q
+        let d' := { d with st := afterQuery d.cfg d.st q }
         let sNd := cuts q && hasTies q.slot (scanRows q d.store)
         let bNd := match bucketRows d.cfg q d.store with
           | some rows => cuts q && hasTies q.slot rows
           | none => sNd
-        let fl := if bNd || sNd || b == s then "" else String.join ((explain d.cfg d.store q).map (fun f => "\t#F:" ++ f))
-        (d, "b=" ++ (if bNd then "nd" else renderItems b) ++ " s=" ++ (if sNd then "nd" else renderItems s) ++ fl)
+        let fs := (if b != bSpec then trackFlags d.cfg else []) ++ (if bSpec != s then explain d.cfg d.store q else [])
+        let fl := if bNd || sNd || b == s then "" else String.join ((if fs.isEmpty then ["C08-unexplained"] else fs).map (fun f => "\t#F:" ++ f))
+        (d', "b=" ++ (if bNd then "nd" else renderItems b) ++ " s=" ++ (if sNd then "nd" else renderItems s) ++ fl)
     | _, _, _, _, _, _ => (d, "bad-op")
   | _ => (d, "bad-op")
 
@@ -266,8 +332,11 @@ def run (args : List String) : IO UInt32 := do
     labelReattach := yes kv "labelReattach", pagedQueriesBypass := yes kv "pagedQueriesBypass",
     bucketChecksAttr := yes kv "bucketChecksAttr",
     lookupInDedupes := yes kv "lookupInDedupes", unionDedupes := yes kv "unionDedupes",
-    bucketWindowTimeOnly := yes kv "bucketWindowTimeOnly" }
-  lineLoop step { cfg := cfg, store := [] }
+    bucketWindowTimeOnly := yes kv "bucketWindowTimeOnly",
+    bucketNotifyInsert := yes kv "bucketNotifyInsert", bucketNotifyUpdate := yes kv "bucketNotifyUpdate",
+    bucketNotifyDelete := yes kv "bucketNotifyDelete", bucketPendingReplayed := yes kv "bucketPendingReplayed",
+    readerDrainsInFlight := yes kv "readerDrainsInFlight" }
+  lineLoop step { cfg := cfg, st := BSt.init }
   return 0
 
 end Driver.C08
